@@ -34,9 +34,9 @@ fn ref_chunk(fmt: u8, csid: u32, form: u8, tsf: u32, len: u32, ty: u8, msid: u32
 // ---------------- reference decoder (per chunk stream reassembly, straight from 5.3.1) ----------------
 #[derive(Clone, Default)]
 struct RHdr { ts: u32, delta: u32, len: u32, ty: u8, msid: u32 }
-struct RefDecoder { mcs: usize, prev: HashMap<u32, RHdr>, partial: HashMap<u32, Vec<u8>> }
+struct RefDecoder { mcs: usize, prev: HashMap<u32, RHdr>, partial: HashMap<u32, Vec<u8>>, minimal_only: bool }
 impl RefDecoder {
-    fn new() -> Self { RefDecoder { mcs: 128, prev: HashMap::new(), partial: HashMap::new() } }
+    fn new() -> Self { RefDecoder { mcs: 128, prev: HashMap::new(), partial: HashMap::new(), minimal_only: false } }
     // decode a complete byte string; Err(text) if malformed / truncated
     fn decode_all(&mut self, b: &[u8]) -> Result<Vec<Msg>, String> {
         let mut out = vec![];
@@ -48,6 +48,8 @@ impl RefDecoder {
                 else if low == 1 { if i + 3 > b.len() { return Err("trunc basic".into()); } (b[i + 2] as u32 * 256 + b[i + 1] as u32 + 64, 3) }
                 else { (low, 1) };
             i += n;
+            // C07 "chunk stream ids are legal and minimally encoded" (5.3.1.1: 2..63 one byte, 64..319 two bytes, 320..65599 three)
+            if self.minimal_only && (csid < 2 || (n == 3 && csid < 320)) { return Err(format!("chunk stream id {} written in the {}-byte basic header form (not legal / not minimal)", csid, n)); }
             let first = self.partial.get(&csid).map(|p| p.is_empty()).unwrap_or(true);
             let mut h = if fmt == 0 { RHdr::default() } else { self.prev.get(&csid).cloned().ok_or_else(|| format!("no previous header on csid {}", csid))? };
             let need = match fmt { 0 => 11, 1 => 7, 2 => 3, _ => 0 };
@@ -207,7 +209,8 @@ fn scripts(seed: u64, count: usize, no_type1: bool) -> Vec<Vec<Op>> {
     for &n in &[3u32, 29, 30, 31, 70, 130] { for &base in &[1u32, 100, 1000, 21800, 0x7FFFFFF0, 0xFFFFFF00] {
         let mut sc = vec![];
         for k in 0..n { for ty in [8u8, 9] { sc.push(Op::Send { m: Msg { ts: 10 * k, ty, msid: base.wrapping_add(k), data: payload(if ty == 9 { 140 } else { 9 }, k as u8) }, force: false, dropp: false }); } }
-        for k in 0..3u32 { sc.push(Op::Send { m: Msg { ts: 10 * n + k, ty: 9, msid: base.wrapping_add(k), data: payload(140, 200 + k as u8) }, force: false, dropp: false }); }
+        // second round: EVERY stream speaks again (compressed headers against whatever the receiver filed under that chunk stream id)
+        for k in 0..n { sc.push(Op::Send { m: Msg { ts: 10 * n + k, ty: 9, msid: base.wrapping_add(k), data: payload(141, 200u8.wrapping_add(k as u8)) }, force: false, dropp: false }); }
         v.push(sc);
     } }
     for _ in 0..count { let n = 2 + (rng.next() % 6) as usize; v.push(gen_script(&mut rng, n, true)); }
@@ -222,7 +225,7 @@ fn mode_c07_c01_c15(mode: &str, seed: u64) {
         for (p, _) in &pk { if p.bytes.is_empty() { witness(format!("[{}] empty packet in script {}", mode, short(&sc))); } }
         let all: Vec<u8> = pk.iter().flat_map(|(p, _)| p.bytes.clone()).collect();
         if mode == "c07" {
-            let mut r = RefDecoder::new();
+            let mut r = RefDecoder::new(); r.minimal_only = true;
             match r.decode_all(&all) { Ok(got) => if got != expect { witness(format!("[c07] reference decoder disagrees on script {}: got {:?}", short(&sc), got.iter().map(|m| (m.ts, m.ty, m.msid, m.data.len())).collect::<Vec<_>>())) },
                                         Err(e) => witness(format!("[c07] reference decoder rejects the output of script {}: {}", short(&sc), e)) }
             // per-chunk payload bound is implied by exact decoding with the announced sizes
